@@ -79,6 +79,7 @@ pub fn c20_memory_rejects() {
 /// has taken its place (frame ids differ): the access stops loudly.
 #[cfg_attr(kani, kani::proof)]
 #[cfg_attr(kani, kani::unwind(10))]
+#[cfg_attr(kani, kani::stub(core::panicking::assert_failed, crate::stubs::assert_failed_stub))]
 pub fn c20_memory_dangling_frame() {
     let mut mem = Memory::new();
     mem.verif_push_frame();
